@@ -12,6 +12,7 @@ BASES = [
     ("ext2_2k", ["-t", "ext2", "-b", "2048"], "12M"),
     ("ext4_nocsum", ["-t", "ext4", "-b", "1024", "-O", "^metadata_csum,uninit_bg,^64bit"], "12M"),
     ("ext4_128", ["-t", "ext4", "-b", "1024", "-I", "128", "-O", "^metadata_csum,^64bit"], "12M"),
+    ("ext4_bigalloc_1k", ["-t", "ext4", "-b", "1024", "-O", "bigalloc", "-C", "4096"], "24M"),      # judged by e2fsck and the file tree (the reader's invariants skip bigalloc)
 ]
 # feature bits that may change although not named (update_feature_set's documented side effects)
 IMPLIED = {
@@ -161,7 +162,7 @@ def sequence_case(src, idx, seed, tier):
                   ["-O", "^filetype"], ["-O", "^huge_file"], ["-O", "^large_file"], ["-O", "encrypt"], ["-O", "casefold"], ["-O", "^resize_inode"], ["-r", "100"], ["-O", "^extra_isize"]]
     n = r.randint(2, 5)
     for k in range(n):
-        if r.random() < 0.3:
+        if r.random() < 0.3 and not ("bigalloc" in name and k == 0):
             args, allowed = r.choice(SETTERS)
             before = open(img, "rb").read()
             rc, out = e2v.sh([os.path.join(src, "misc/tune2fs")] + args + [img], env=env, timeout=600, input=b"\n")
@@ -175,6 +176,8 @@ def sequence_case(src, idx, seed, tier):
                     problems.append("tune2fs %s changed files" % " ".join(args))
         else:
             args = r.choice(FEAT_STEPS)
+            if "bigalloc" in name and k == 0:
+                args = r.choice([["-O", "^has_journal"], ["-O", "^has_journal"], ["-J", "size=4"], ["-O", "quota"]])      # cluster-granular accounting
             if args[0] == "-I" and Fs(img).inode_size >= 256:
                 args = ["-O", "^has_journal"]
             rc, out = e2v.sh([os.path.join(src, "misc/tune2fs")] + args + [img], env=env, timeout=900, input=b"\n")
